@@ -39,7 +39,7 @@ META = dict(
     level_note=('Trusted: Lean kernel + standard axioms; translators/write_order.py (AST extraction of step and library order); '
                 'Pyc/Model/SaveMachine.lean; filesystem semantics (truncate on open, buffering) and the ElementTree serialiser are outside the '
                 'model and observed only by the direct check; "model unchanged" is judged on the public snapshot plus array shapes/dtypes and dict keys.'),
-    technique='Lean 4 theorems on a save/write state machine whose step order is translated from the source each run, and on a model of the pretty printer indent() (touches XML white space only, idempotent) + correspondence of partially failed saves and of indent() + byte-level oracle with failing sinks',
+    technique='Lean 4 theorems on a save/write state machine whose step order is translated from the source each run, on a model of the pretty printer indent() (touches XML white space only, idempotent) and on a model of the root loop of Collada.save over the generated library tuple (saveRoot_idem: two saves leave what one leaves, for every list of root children) + correspondence of partially failed saves, of indent() and of the root children + byte-level oracle with failing sinks and a bystander document',
 )
 
 
